@@ -157,11 +157,11 @@ fn interp<C: Context>(s: &Script, env: &mut Env, ctx: &mut C) -> i64 {
       interp(k, env, ctx)
     }
     Script::Read(r, c, k) => match read_c(ctx, *r, *c) {
-      Ok(v) => { env.push(rproj(*c, v)); interp(k, env, ctx) }
+      Ok(v) => { CHKLOG.with(|l| l.borrow_mut().push(format!("saw MK({}) {:?}", r, v))); env.push(rproj(*c, v)); interp(k, env, ctx) }
       Err(e) => -(100 + e),
     },
-    Script::Write(r, c, e, k) => { let v = e.as_ref().map(|e| eval(e, env)); match write_c(ctx, *r, *c, v, false) { Ok(()) => interp(k, env, ctx), Err(e) => -(100 + e) } }
-    Script::Wrote(r, c, e, k) => { let v = e.as_ref().map(|e| eval(e, env)); match write_c(ctx, *r, *c, v, true) { Ok(()) => interp(k, env, ctx), Err(e) => -(100 + e) } }
+    Script::Write(r, c, e, k) => { let v = e.as_ref().map(|e| eval(e, env)); CHKLOG.with(|l| l.borrow_mut().push(format!("writes MK({}) {:?}", r, v))); match write_c(ctx, *r, *c, v, false) { Ok(()) => interp(k, env, ctx), Err(e) => -(100 + e) } }
+    Script::Wrote(r, c, e, k) => { let v = e.as_ref().map(|e| eval(e, env)); CHKLOG.with(|l| l.borrow_mut().push(format!("writes MK({}) {:?}", r, v))); match write_c(ctx, *r, *c, v, true) { Ok(()) => interp(k, env, ctx), Err(e) => -(100 + e) } }
     Script::If(e, a, b) => if eval(e, env) != 0 { interp(a, env, ctx) } else { interp(b, env, ctx) },
   }
 }
@@ -217,12 +217,12 @@ struct St {
   out: Vec<String>,
 }
 
-fn known_tasks(pie: &Pie<Trk>) -> Vec<u32> {
+fn known_tasks(pie: &Pie<Trk>, with_output: bool) -> Vec<u32> {
   let mut v = Vec::new();
   for l in pie.verif_dump_store() {
     // rank=3 task=Tsk(3) out=Some(Ok(3)) deps=...
     let f: Vec<&str> = l.split(' ').collect();
-    if f.len() > 2 && f[1].starts_with("task=Tsk(") && f[2].starts_with("out=Some") {
+    if f.len() > 2 && f[1].starts_with("task=Tsk(") && (!with_output || f[2].starts_with("out=Some")) {
       v.push(f[1]["task=Tsk(".len()..f[1].len() - 1].parse().unwrap());
     }
   }
@@ -234,7 +234,7 @@ fn run_session(st: &mut St, ops: &[&String]) -> Result<(), String> {
   let rec_a = st.rec_a.clone();
   let rec_b = st.rec_b.clone();
   let et = st.et.clone();
-  let known = known_tasks(&st.pie);
+  let known = known_tasks(&st.pie, true);
   let mut out = std::mem::take(&mut st.out);
   out.push("op session".into());
   let mut dead = false;
@@ -246,6 +246,7 @@ fn run_session(st: &mut St, ops: &[&String]) -> Result<(), String> {
     let mut finish = |out: &mut Vec<String>, n0: usize, res: Result<String, String>| {
       for e in rec_a.since(n0) { out.push(format!("ev {}", e)); }
       TASKLOG.with(|l| out.extend(l.borrow_mut().drain(..)));
+      CHKLOG.with(|l| out.extend(l.borrow_mut().drain(..).map(|x| format!("i: ck {}", x))));
       et_lines(&et.0.borrow(), out);
       out.push(if rec_a.since(0) == rec_b.since(0) { "composite same".into() } else { "composite DIFFERENT".into() });
       match res { Ok(t) => { out.push(t); false } Err(k) => { out.push(format!("abort {}", k)); true } }
@@ -338,10 +339,13 @@ pub fn run_case(lines: &[String]) -> Vec<String> {
           for d in st.pie.verif_dump_store() { st.out.push(format!("st {}", d)); }
           i = j;
         }
-        ["clean", ts @ ..] => {
-          let ts: Option<Vec<u32>> = ts.iter().map(|x| x.parse().ok()).collect();
-          let ts = ts?;
+        ["clean", ..] | ["cleanknown"] | ["cleannodes"] => {
+          let ts: Vec<u32> = if t[0] == "cleanknown" { known_tasks(&st.pie, true) } else if t[0] == "cleannodes" { known_tasks(&st.pie, false) } else {
+            let ts: Option<Vec<u32>> = t[1..].iter().map(|x| x.parse().ok()).collect();
+            ts?
+          };
           st.out.push(format!("op {}", l));
+          st.out.push(format!("cl roots [{}]", ts.iter().map(|x| x.to_string()).collect::<Vec<_>>().join(",")));
           let fs: HashMap<MK, i64> = st.pie.resource_state_mut::<MK>().get_global_map().clone();
           let saved: Vec<String> = TASKLOG.with(|l| l.borrow_mut().drain(..).collect());
           let (mut pie2, _a, _b, _et) = new_pie();
